@@ -18,6 +18,7 @@
 #include <unistd.h>
 #include <sys/mman.h>
 #include <sys/wait.h>
+#include <sys/time.h>
 #include <sanitizer/lsan_interface.h>
 
 extern "C" {
@@ -29,6 +30,16 @@ const char* __ubsan_default_options() { return "print_stacktrace=1:halt_on_error
 }
 
 namespace sbx {
+
+// Watchdog of a child: `seconds` of CPU time (ITIMER_PROF -> SIGPROF; an endless loop burns CPU, a machine that is merely busy does
+// not make an innocent case look hung), with a wall-clock backstop at 15 x that (alarm -> SIGALRM) for a process that blocks.
+// Neither signal is handled: the default action ends the child and the parent classifies the run as HANG.
+inline void watchdog(int seconds) {
+  struct itimerval tv; tv.it_interval.tv_sec = 0; tv.it_interval.tv_usec = 0; tv.it_value.tv_sec = seconds; tv.it_value.tv_usec = 0;
+  setitimer(ITIMER_PROF, &tv, nullptr);
+  alarm(seconds > 0 ? (unsigned)seconds * 15u : 0u);
+}
+
 
 enum ExitCode { EX_OK = 0, EX_SWALLOWED = 91, EX_WRONG_EXC = 92, EX_EXC = 93, EX_MEM = 94, EX_LEAK = 95, EX_ASAN = 97, EX_UBSAN = 98 };
 enum Outcome { OK = 0, CRASH, HANG, UB, LEAK, MEM, EXC, ALLOC_SWALLOWED, ALLOC_WRONG_EXC };
@@ -138,7 +149,7 @@ inline Result in_child(const std::function<int()>& body, bool leak_check = true)
     Heap& h = heap();
     h.in_child = true; h.live = 0; h.peak = 0;
     int code = body();
-    alarm(0);
+    watchdog(0);
     sh->peak = h.peak;
     if (code == EX_OK && leak_check) {
       h.in_child = false;                 // the leak checker's own allocations are not the library's
@@ -152,7 +163,7 @@ inline Result in_child(const std::function<int()>& body, bool leak_check = true)
   r.cur = sh->cur; r.done = sh->done;
   if (WIFSIGNALED(st)) {
     r.sig = WTERMSIG(st);
-    r.oc = (r.sig == SIGALRM) ? HANG : CRASH;
+    r.oc = (r.sig == SIGALRM || r.sig == SIGPROF) ? HANG : CRASH;
   } else {
     r.exit_code = WEXITSTATUS(st);
     switch (r.exit_code) {
